@@ -102,6 +102,7 @@ static void run(void)
 	int tr = xp_choose(NTRANS, XP_SCENARIO, "transport");
 	int en = xp_choose(NENDINGS, XP_SCENARIO, "ending");
 	int mo = xp_choose(NMOMENTS, XP_SCENARIO, "moment");
+	int late_sub = xp_choose(2, XP_SCENARIO, "late-subscriber");
 	bool is_ws = tr == T_WS;
 	/* applicability */
 	if ((en == E_WS_UNMASKED || en == E_WS_CLOSE || en == E_WS_RSV) && !is_ws) {
@@ -226,6 +227,14 @@ static void run(void)
 	if (sim_conn_closed_by_daemon(V)) {
 		fail5("victim-dropped-during-setup", "the daemon closed the victim while it was only being brought into its state");
 	}
+	/* a second subscriber that arrives AFTER the victim: the victim's fetches sit in front of it in every subscriber table */
+	int S2 = -1, fromS2 = 0;
+	if (late_sub) {
+		S2 = jx_open(CL_WS);
+		jx_sendf(S2, "{\"id\":\"s2f\",\"method\":\"fetch\",\"params\":{\"id\":\"late\"}}");
+		jx_settle();
+		fromS2 = clients[S2].nmsgs;
+	}
 	int fromS_end = clients[S].nmsgs, fromC_end = clients[C].nmsgs, fromB_end = clients[B].nmsgs;
 	(void)fromS;
 	(void)fromC;
@@ -320,6 +329,17 @@ static void run(void)
 			fail5("owned-element-not-removed", "a subscriber did not see exactly one remove for the victim's method");
 		}
 	}
+	if (S2 >= 0) {
+		if (sim_conn_closed_by_daemon(S2)) {
+			fail5("late-subscriber-dropped", "the subscriber that arrived after the victim was dropped");
+		}
+		if (owns && (count_notifs(S2, "late", "remove", "v1", fromS2) != 1 || count_notifs(S2, "late", "remove", "vq", fromS2) != 1)) {
+			fail5("owned-element-not-removed:late-subscriber", "the subscriber behind the victim did not see exactly one remove for each element the victim owned");
+		}
+		if ((owner_inflight || self) && count_notifs(S2, "late", "remove", "vm", fromS2) != 1) {
+			fail5("owned-element-not-removed:late-subscriber", "the subscriber behind the victim did not see exactly one remove for the victim's method");
+		}
+	}
 	if (owner_inflight) {
 		bool e1 = false, e2 = false;
 		int n1 = count_resp(C, "c-v", fromC_end, &e1), n2 = count_resp(S, "s-v", fromS_end, &e2);
@@ -373,6 +393,9 @@ static void run(void)
 	fs = clients[S].nmsgs;
 	jx_sendf(B, "{\"id\":\"probe1\",\"method\":\"change\",\"params\":{\"path\":\"b1\",\"value\":1234}}");
 	jx_settle();
+	if (S2 >= 0 && count_notifs(S2, "late", "change", "b1", fromS2) < 1) {
+		fail5("bystander-fetch-disturbed:late-subscriber", "after the victim left, the subscriber that arrived after it no longer receives a bystander's change");
+	}
 	if (!jx_is_success(jx_find_response_str(B, "probe1", 0)) || count_notifs(S, "sf", "change", "b1", fs) != 1) {
 		fail5("bystander-fetch-disturbed", "after the victim left, a bystander's change is not accepted or not delivered exactly once to the bystander subscriber");
 	}
@@ -401,10 +424,11 @@ static void run(void)
 	}
 	/* resources as before the victim connected (the bystanders' request has completed: one timer and record less) */
 	jx_expire_all_timers(4);
-	if (get_number_of_peers() != peers0) {
-		fail5("peer-count-not-restored", "peer count %d, before the victim %d", get_number_of_peers(), peers0);
+	int extra = S2 >= 0 ? 1 : 0; /* the late subscriber is still connected */
+	if (get_number_of_peers() != peers0 + extra) {
+		fail5("peer-count-not-restored", "peer count %d, before the victim %d (+%d late subscriber)", get_number_of_peers(), peers0, extra);
 	}
-	if (sim_open_fds() != fds0 - 1 || sim_armed_timers() != timers0 - 1) {
+	if (sim_open_fds() != fds0 - 1 + extra || sim_armed_timers() != timers0 - 1) {
 		char kinds[100];
 		sim_open_fd_summary(kinds, sizeof(kinds));
 		fail5("descriptors-not-restored", "%d descriptors open / %d timers armed; before the victim %d / %d (minus the completed bystander request)", sim_open_fds(), sim_armed_timers(), fds0, timers0);
@@ -421,7 +445,7 @@ static void run(void)
 	xp_nontrivial();
 	xp_transition();
 	xp_outcome(hash_mix(cl_transcript_hash(S), cl_transcript_hash(C)));
-	xp_state(hash_mix(hash_mix((uint64_t)st * 1000 + (uint64_t)tr * 100 + (uint64_t)en * 10 + (uint64_t)mo, (uint64_t)pos), 5));
+	xp_state(hash_mix(hash_mix((uint64_t)st * 1000 + (uint64_t)tr * 100 + (uint64_t)en * 10 + (uint64_t)mo, (uint64_t)pos * 2 + (uint64_t)late_sub), 5));
 	jx_log_transcripts();
 }
 
@@ -429,6 +453,6 @@ const struct driver drv_c05 = {
     .name = "c05",
     .property = "C05",
     .run = run,
-    .rule = "product of 11 victim protocol states (caller in flight to an owner that removed its last element meanwhile, idle, owning elements, holding fetches, caller in flight, owner with 2 requests in flight, caller and owner of the same request, unsent buffered output, all at once, mid message at every byte position, mid HTTP upgrade at every byte position) x 3 transports (tcp, unix socket, websocket) x 9 endings (FIN, reset seen by epoll / read / writev, oversize length, invalid JSON, ws unmasked frame, ws close frame, ws reserved bit) x 5 moments (alone; in the same harvested batch as a bystander's message or as the expiry of one of its requests, victim dispatched first / last); inapplicable combinations end at once; non-trivial = applicable combinations run to the end",
-    .assumptions = "the subscriber used for the checks subscribed before the victim (ordering effects of a failing subscriber in front of others are C11's subject)|heap is compared at the idle baseline after everybody left",
+    .rule = "product of 11 victim protocol states (caller in flight to an owner that removed its last element meanwhile, idle, owning elements, holding fetches, caller in flight, owner with 2 requests in flight, caller and owner of the same request, unsent buffered output, all at once, mid message at every byte position, mid HTTP upgrade at every byte position) x 3 transports (tcp, unix socket, websocket) x 9 endings (FIN, reset seen by epoll / read / writev, oversize length, invalid JSON, ws unmasked frame, ws close frame, ws reserved bit) x {no further subscriber, a websocket subscriber that arrived after the victim} x 5 moments (alone; in the same harvested batch as a bystander's message or as the expiry of one of its requests, victim dispatched first / last); inapplicable combinations end at once; non-trivial = applicable combinations run to the end",
+    .assumptions = "heap is compared at the idle baseline after everybody left",
 };
